@@ -187,6 +187,7 @@ struct Probe {
 static const uint32_t NA_SET[] = {0xE9, 0xFC, 0xDF, 0x3A9, 0x4E2D, 0x1D4B3, 0xF1, 0xA9};
 static bool utf8_bytes_all_high(uint32_t c) { for (unsigned char b : enc_utf8(u32s(1, (char32_t) c))) if (b < 0xA0) return false; return true; }
 
+static std::string cell_bytes(const Cell &cell, const u32s &text);
 static Probe build_probe(const CaseFile &c, const Cell &cell) {
     Probe p;
     std::string code = c.get("code", "p"), sfx = c.get("sfx", "");
@@ -228,6 +229,7 @@ static Probe build_probe(const CaseFile &c, const Cell &cell) {
     case M_20X: t += from_ascii(std::string("#\\#CIF_2.0") + X[mterm % 3] + "\n"); break;
     }
     t += from_ascii("data_" + code + "\n");
+    const size_t pad_at = t.size(); size_t na_pos = (size_t) -1;
     // items
     auto nm = [&](char k) { return std::string("_") + k + sfx; };
     struct Item { u32s name, value; bool textfield; };
@@ -252,8 +254,22 @@ static Probe build_probe(const CaseFile &c, const Cell &cell) {
         if (s < 0) s = 0; if (e < 0) e = 0;
         t += items[i].name;
         t += items[i].textfield ? from_ascii("\n") : from_ascii(SEP[s]);
+        if (items[i].name == from_ascii(nm('n'))) na_pos = t.size();
         t += items[i].value;
         t += from_ascii(EOL[e]);
+    }
+    // straddle = k in 1..3: comment lines are inserted after the block header so that, in this cell's byte encoding, the first byte of the
+    // non-ASCII value is the k-th byte from the end of a 4096-byte read (a multi-byte character then spans two reads of the byte stream)
+    long st = c.geti("straddle");
+    if (st > 0 && na_pos != (size_t) -1) {
+        size_t unit = cell_bytes(cell, U"a").size() - cell_bytes(cell, U"").size();
+        size_t before = cell_bytes(cell, t.substr(0, na_pos)).size(), want = (size_t) (4096 - st) % 4096;
+        size_t shift = (want + 4096 - before % 4096) % 4096;
+        if (unit && shift % unit == 0) {
+            size_t pad = shift / unit; u32s padding;
+            while (pad > 0) { if (pad == 1) { padding += U"\n"; break; } size_t n = std::min<size_t>(pad, 1000); if (pad - n == 1) n -= 1; padding += U"#"; padding += u32s(n - 2, U'p'); padding += U"\n"; pad -= n; }
+            t.insert(pad_at, padding);
+        }
     }
     p.text = t;
     p.n_q = u16(nm('q')); p.n_l = u16(nm('l')); p.n_t = u16(nm('t')); p.n_b = u16(nm('b')); p.n_f = u16(nm('f')); p.n_n = u16(nm('n'));
@@ -417,6 +433,7 @@ static CaseFile gen_probe() {
       for (int i = 0; i < n; i++) { if (i && *g::chance(30)) na += (char16_t) ('a' + *g::range(0, 25)); else g::push_cp(na, NA_SET[*g::range(0, 7)]); }
       c.set("na", ser_u16(na)); }
     c.seti("midbom", *g::chance(25) ? 1 : 0);
+    c.seti("straddle", *g::chance(15) ? *g::range(1, 3) : 0);
     { std::string w; for (int i = 0; i < 14; i++) w += (char) ('0' + *rc::gen::weightedElement<int>({{5, 0}, {1, 1}, {1, 2}, {1, 3}, {1, 4}})); c.set("ws", w); }
     c.seti("mterm", *g::range(0, 11)); c.seti("lead", *g::range(0, 2)); c.seti("order", *g::range(0, 5039));
     return c;
